@@ -14,8 +14,9 @@ from mc.engine.core import Collector, Result, Violation
 from mc.ref.validate import validate
 
 PLAN = {
-    "quick": [("D1", 3), ("D2", 3), ("D0", 3), ("C1", 3), ("L1", 3), ("G1", 3), ("M1", 4)],
-    "thorough": [("D1", 4), ("D2", 4), ("D0", 4), ("C1", 4), ("L1", 4), ("G1", 4), ("M1", 5)],
+    # (scenario, bound on *free* calls; steps with a single enabled call do not count)
+    "quick": [("D1", 3), ("D2", 3), ("D0", 3), ("C1", 3), ("L1", 3), ("G1", 3), ("M1", 3), ("M2", 3)],
+    "thorough": [("D1", 4), ("D2", 4), ("D0", 5), ("C1", 4), ("L1", 4), ("G1", 4), ("M1", 4), ("M2", 4)],
 }
 
 
